@@ -11,7 +11,7 @@ import (
 )
 
 // The cli stage runs the built cmd/pql binary (path in $PQL_BIN) on a script.
-// fields: script hex, delivery ("stdin" | "file" | "files" | "ofile").
+// fields: script hex, delivery ("stdin" | "dash" | "file" | "files" | "dashfile" | "filedash" | "ofile").
 func showCli(f []string) string {
 	bin := os.Getenv("PQL_BIN")
 	script := unhx(f[0])
@@ -39,6 +39,22 @@ func showCli(f []string) string {
 			// the output file already exists and holds older, longer content
 			os.WriteFile(outFile, []byte(strings.Repeat("-- stale output of an earlier run\n", 200)), 0o644)
 			args = append([]string{"-o", outFile}, args...)
+		}
+	case "dash":
+		stdin = []byte(script)
+		args = append(args, "-")
+	case "dashfile", "filedash":
+		// one half on standard input (named "-"), the other in a file
+		n := len(script) / 2
+		fp := filepath.Join(dir, "second.pql")
+		if mode == "dashfile" {
+			stdin = []byte(script[:n])
+			os.WriteFile(fp, []byte(script[n:]), 0o644)
+			args = append(args, "-", fp)
+		} else {
+			os.WriteFile(fp, []byte(script[:n]), 0o644)
+			stdin = []byte(script[n:])
+			args = append(args, fp, "-")
 		}
 	case "files":
 		// cut the script into three files at arbitrary byte positions
